@@ -125,6 +125,57 @@ def judgePreCookie (r : Reaction) : Option (String × String) :=
     some ("amplification", s!"{r.sent.foldl (· + ·) 0} bytes sent in answer to {r.requestBytes} bytes")
   else none
 
+/-! ### a ClientHello that arrives in fragments (RFC 6347 §4.2.3), datagram by datagram
+
+"answers each ClientHello with nothing but a HelloVerifyRequest no larger than the request": a
+datagram that carries a fragment is not a ClientHello; a ClientHello has been received once
+every byte of it has been received. Whatever the order, repeats and overlaps of the fragments,
+each received fragment can be part of one received ClientHello only, so after a series of
+fragment datagrams the number of ClientHellos received is at most the number of times the
+least-often received byte of the message was received. -/
+
+/-- a received datagram carrying the fragment [off, off+len) of the message, and what the server
+sent in reaction to it (`reaction.requestBytes` = size of this datagram) -/
+structure FragDatagram where
+  off : Nat
+  len : Nat
+  reaction : Reaction
+  deriving Repr
+
+/-- how many times over the fragments (offset, length) cover a message of `n` bytes: the number of
+times its least-often received byte was received (fragments reaching beyond `n` count for nothing) -/
+def timesCovered (n : Nat) (fs : List (Nat × Nat)) : Nat :=
+  (List.range n).foldl
+    (fun m i => min m (fs.filter fun f => f.1 + f.2 ≤ n && f.1 ≤ i && i < f.1 + f.2).length) fs.length
+
+/-- before a valid cookie, for the datagrams of a fragmented ClientHello of `n` bytes in the order
+received: nothing but HelloVerifyRequests, no alert, no certificate, no private-key operation; at
+every point at most as many HelloVerifyRequests as ClientHellos received so far (a datagram that
+completes no new ClientHello is answered with nothing), and not more bytes sent than received. -/
+def judgeFragmented (n : Nat) (ds : List FragDatagram) : Option (String × String) :=
+  let rec go (ds : List FragDatagram) (j : Nat) (seen : List (Nat × Nat)) (hvrs sent recv : Nat) :
+      Option (String × String) :=
+    match ds with
+    | [] => none
+    | d :: rest =>
+      let r := d.reaction
+      let seen := seen ++ [(d.off, d.len)]
+      let hvrs := hvrs + r.types.length
+      let out := r.sent.foldl (· + ·) 0
+      let sent := sent + out
+      let recv := recv + r.requestBytes
+      let have_ := timesCovered n seen
+      if r.keyOps != 0 then some ("private-key-before-cookie", s!"{r.keyOps} private-key operations before a valid cookie")
+      else if r.types.contains typeCertificate then some ("certificate-before-cookie", "certificate sent before a valid cookie")
+      else if !(r.types.all (· == typeHelloVerifyRequest)) || r.alerts != 0 || (r.types.isEmpty && !r.sent.isEmpty) then
+        some ("not-only-hvr", s!"fragment datagram {j} answered with handshake types {r.types}, {r.alerts} alerts, {r.sent.length} datagrams")
+      else if hvrs > have_ then
+        some ("unsolicited-reply", s!"datagram {j} ({r.requestBytes} bytes, fragment {d.off}+{d.len} of {n}) completes no new ClientHello ({have_} received so far, {hvrs - r.types.length} answered) and was answered with {out} bytes")
+      else if sent > recv then
+        some ("amplification", s!"{sent} bytes sent in answer to {recv} bytes of fragment datagrams")
+      else go rest (j + 1) seen hvrs sent recv
+  go ds 0 [] 0 0 0
+
 /-- GM/T 0024: the only protocol version is 1.1 (0x0101); SSL/TLS version numbers (0x03xx)
 are not TLCP and anything below 1.1 does not exist -/
 def versionAcceptable (v : Nat) : Bool := v ≥ 0x0101 && v / 256 != 3
